@@ -108,9 +108,9 @@ ConstructionTruthful ==
 (* ---- (2) consumption machines -------------------------------------------------------- *)
 
 Kinds == {"titer", "map", "shift", "vshift", "vdiff", "vpct", "fill", "clip", "partition", "argpartition",
-          "rolling_iter", "linspace", "range", "pipe2", "pipe3"}
+          "rolling_iter", "linspace", "range", "pipe2", "pipe3", "to_trust"}
 \* kinds whose real type is double-ended (the boxed dyn TrustedLen results are forward-only)
-DoubleEnded == {"titer", "map", "linspace", "range"}
+DoubleEnded == {"titer", "map", "linspace", "range", "to_trust"}
 
 VARIABLES kind, L, p, q,     \* adaptor, source length, two integer parameters
           total,             \* items the iterator yields in all (Yield of its lowering)
@@ -121,6 +121,7 @@ vars == <<kind, L, p, q, total, decl, kf, kb, sched>>
 
 Term ==
     CASE kind \in {"titer", "map", "fill", "clip"} -> Src(L)
+      [] kind = "to_trust" -> Trust(Src(L), L)               \* the wrapper itself, on its concrete type
       [] kind \in {"shift", "vshift"} -> LowerVShift(L, p)
       [] kind = "vdiff" -> LowerVDiff(L, p)
       [] kind = "vpct"  -> LowerVPct(L, p)
@@ -168,7 +169,22 @@ NextNth(k) ==
     /\ kf' = kf + Min2(k + 1, Remaining) /\ sched' = Append(sched, NthStr(k))
     /\ UNCHANGED <<kind, L, p, q, total, decl, kb>>
 
-Next == NextF \/ NextB \/ \E k \in 0..Min2(MaxSrc + 1, 8) : NextNth(k)
+\* nth_back(k) on the double-ended kinds
+NthBackStr(k) == CASE k = 0 -> "M0" [] k = 1 -> "M1" [] k = 2 -> "M2" [] k = 3 -> "M3" [] k = 4 -> "M4"
+                   [] k = 5 -> "M5" [] k = 6 -> "M6" [] k = 7 -> "M7" [] OTHER -> "M8"
+NextNthBack(k) ==
+    /\ kind \in DoubleEnded /\ Remaining > 0
+    /\ kb' = kb + Min2(k + 1, Remaining) /\ sched' = Append(sched, NthBackStr(k))
+    /\ UNCHANGED <<kind, L, p, q, total, decl, kf>>
+\* terminal operations: count (C), last (L), fold (S) consume everything that is left, in order
+Drain(op) ==
+    /\ Remaining > 0
+    /\ kf' = kf + Remaining /\ sched' = Append(sched, op)
+    /\ UNCHANGED <<kind, L, p, q, total, decl, kb>>
+
+Next == \/ NextF \/ NextB
+        \/ \E k \in 0..Min2(MaxSrc + 1, 8) : NextNth(k) \/ NextNthBack(k)
+        \/ \E op \in {"C", "L", "S"} : Drain(op)
 Spec == Init /\ [][Next]_vars /\ WF_vars(Next)
 
 Exhausted == Remaining = 0
@@ -178,7 +194,7 @@ HintExact == Announced = Remaining
 \* C09 / C13: shift-like adaptors preserve the length of their input
 LenPreservedInv ==
     kind \in {"titer", "map", "shift", "vshift", "vdiff", "vpct", "fill", "clip", "rolling_iter", "pipe2", "pipe3",
-              "linspace", "range"} => total = L
+              "linspace", "range", "to_trust"} => total = L
 PartitionLen == kind \in {"partition", "argpartition"} => total = p + 1
 \* a trusted collector allocates Announced slots and writes Remaining items
 CollectSafe == (kf = 0 /\ kb = 0) => decl = total
